@@ -7,6 +7,14 @@
                               Polish notation: `n<int>` `v<name>` `p<lexeme> e` `q<lexeme> e`
                               `b<lexeme> l r` `c c t e`
     U <text>                  totality only (text with non-ASCII alphanumerics, outside the model)
+    S <opts> <globals> <kind> <locals> <exprs>
+                              shell-level scenario (see `Shell.lean`): opts `-`|`u` (set -u); globals/locals
+                              `-` or `name=K:payload,…` with K = s scalar (hex) | r read-only scalar (hex) |
+                              a array (hex elements joined by `.`) | n declared without value (`-`);
+                              kind top|fn|sub|fnsub|nest; exprs = hex texts joined by `,`.
+                              Observation: output lines joined by `|` (an expansion: hex of its text; a
+                              variable seen by `"${name-U}"`: hex fields joined by `,`), then `END` + the final
+                              global variables, or `ERR` when the shell exited at a failing expansion.
   Observation: `ok <value> <sorted final env>` or `error`; for `U` lines `total`.
   Spec column: `=<observation>` computed by `Spec.evalExact` on `Spec.parseText text`; `-` when the tree is
   outside `Spec.inScope`; `FAIL:…` when the harness' tree is not the tree the Spec reads from the text.
@@ -14,6 +22,7 @@
 import YashModel.Common.Proto
 import YashModel.Arith.Model
 import YashModel.Arith.Spec
+import YashModel.Arith.Shell
 open YashModel YashModel.Arith YashModel.Proto
 open YashModel.Generated.ArithTables
 
@@ -93,10 +102,168 @@ def runE (envT textT : String) (treeWords : List String) : String :=
     model ++ "\t" ++ spec
   | _, _ => "bad-case\t-"
 
+/-! ### shell-level scenarios -/
+
+def allNames : List Name := ["a", "b", "n", "q", "r", "v", "x"].map String.toList
+
+def decVar (item : String) : Option (Name × SVar) :=
+  match item.splitOn "=" with
+  | [n, kp] =>
+    match kp.splitOn ":" with
+    | [k, p] =>
+      match k with
+      | "s" => (decChars p).map fun v => (n.toList, ⟨.scalar v, false⟩)
+      | "r" => (decChars p).map fun v => (n.toList, ⟨.scalar v, true⟩)
+      | "a" => ((p.splitOn ".").mapM decChars).map fun l => (n.toList, ⟨.array l, false⟩)
+      | "n" => some (n.toList, ⟨.none, false⟩)
+      | _ => none
+    | _ => none
+  | _ => none
+
+def decCtx (t : String) : Option Ctx :=
+  if t = "-" then some [] else (t.splitOn ",").mapM decVar
+
+def decKind : String → Option CtxKind
+  | "top" => some .top | "fn" => some .fn | "sub" => some .sub | "fnsub" => some .fnsub
+  | "nest" => some .nest | _ => none
+
+def showLine : Line → String
+  | .value s => encChars s
+  | .fields l => ",".intercalate (l.map encChars)
+
+def showVar (p : Name × SVar) : String :=
+  let k := match p.2.value, p.2.readOnly with
+    | .scalar v, false => "s:" ++ encChars v
+    | .scalar v, true => "r:" ++ encChars v
+    | .array l, false => "a:" ++ ".".intercalate (l.map encChars)
+    | .array l, true => "A:" ++ ".".intercalate (l.map encChars)
+    | .none, false => "n:-"
+    | .none, true => "N:-"
+  String.ofList p.1 ++ "=" ++ k
+
+/-- the final global variables, restricted to the names the harness looks at -/
+def showFinal (c : Ctx) : String :=
+  let c := c.filter fun p => allNames.contains p.1
+  let items := (c.map fun p => (String.ofList p.1, showVar p)).mergeSort (fun a b => a.1 ≤ b.1)
+  if items.isEmpty then "-" else ",".intercalate (items.map (·.2))
+
+def showOutcome2 (o : Outcome2) : String :=
+  let ls := o.lines.map showLine
+  let tail := match o.final with
+    | some c => "END " ++ showFinal c
+    | none => "ERR"
+  "|".intercalate (ls ++ [tail])
+
+/-- Spec side: a stack of maps name ↦ text (innermost first) -/
+abbrev SMaps := List (List (Name × List Char))
+
+def sVisible : SMaps → Name → Option (List Char)
+  | [], _ => none
+  | m :: rest, n => match Spec.lookup m n with | some v => some v | none => sVisible rest n
+
+/-- an assignment goes to the visible variable, wherever it lives, else to the global map -/
+def sAssign : SMaps → Name → List Char → SMaps
+  | [], n, v => [[(n, v)]]
+  | [g], n, v => [Spec.update g n v]
+  | m :: rest, n, v =>
+    match Spec.lookup m n with
+    | some _ => Spec.update m n v :: rest
+    | none => m :: sAssign rest n v
+
+def sSubst (ms : SMaps) : Nat → List Char → List Char
+  | 0, _ => []
+  | _, [] => []
+  | f + 1, '$' :: '{' :: rest =>
+    let name := rest.takeWhile (· ≠ '}')
+    ((sVisible ms name).getD []) ++ sSubst ms f ((rest.dropWhile (· ≠ '}')).drop 1)
+  | f + 1, '$' :: rest =>
+    let name := rest.takeWhile Spec.isWordChar
+    if name.isEmpty then '$' :: sSubst ms f rest
+    else ((sVisible ms name).getD []) ++ sSubst ms f (rest.dropWhile Spec.isWordChar)
+  | f + 1, c :: rest => c :: sSubst ms f rest
+
+inductive SBody where
+  | done (vals : List (List Char)) (ms : SMaps)
+  | failed (vals : List (List Char))
+  | silent
+
+/-- expansions by the Spec: value by `evalExact` on the visible variables, every variable it changed is
+    written back by `sAssign` -/
+def sBody (ms : SMaps) : List (List Char) → SBody
+  | [] => .done [] ms
+  | e :: rest =>
+    match Spec.parseText (sSubst ms (e.length + 1) e) with
+    | none => .failed []
+    | some t =>
+      if !Spec.inScope t then .silent else
+      let flat : Spec.Env := allNames.filterMap fun n => (sVisible ms n).map fun v => (n, v)
+      match Spec.evalExact t flat with
+      | none => .failed []
+      | some (v, env') =>
+        let changed := env'.filter fun p => Spec.lookup flat p.1 ≠ some p.2
+        let ms1 := changed.foldl (fun acc p => sAssign acc p.1 p.2) ms
+        match sBody ms1 rest with
+        | .done vs m => .done ((toString v).toList :: vs) m
+        | .failed vs => .failed ((toString v).toList :: vs)
+        | .silent => .silent
+
+def sPrint (ms : SMaps) : List String :=
+  allNames.map fun n => encChars ((sVisible ms n).getD ['U'])
+
+def sFinal (g : List (Name × List Char)) : String :=
+  showFinal (g.map fun p => (p.1, (⟨.scalar p.2, false⟩ : SVar)))
+
+def specScenario (sc : Scenario) : String :=
+  let plain (c : Ctx) : Option (List (Name × List Char)) :=
+    c.mapM fun p => match p.2.value, p.2.readOnly with
+      | .scalar v, false => some (p.1, v)
+      | _, _ => none
+  match sc.nounset, plain sc.globals, plain sc.locals with
+  | false, some g, some l =>
+    let vals (vs : List (List Char)) := vs.map encChars
+    let fin (ls : List String) (tail : String) := "=" ++ "|".intercalate (ls ++ [tail])
+    match sc.kind with
+    | .top =>
+      match sBody [g] sc.exprs with
+      | .done vs ms => fin (vals vs ++ sPrint ms) ("END " ++ sFinal (ms.getLast?.getD []))
+      | .failed vs => fin (vals vs) "ERR"
+      | .silent => "-"
+    | .fn =>
+      match sBody [l, g] sc.exprs with
+      | .done vs ms => fin (vals vs ++ sPrint ms ++ sPrint (ms.drop 1)) ("END " ++ sFinal (ms.getLast?.getD []))
+      | .failed vs => fin (vals vs) "ERR"
+      | .silent => "-"
+    | .nest =>
+      match sBody [[], l, g] sc.exprs with
+      | .done vs ms =>
+        fin (vals vs ++ sPrint ms ++ sPrint (ms.drop 1) ++ sPrint (ms.drop 2)) ("END " ++ sFinal (ms.getLast?.getD []))
+      | .failed vs => fin (vals vs) "ERR"
+      | .silent => "-"
+    | .sub =>
+      match sBody [g] sc.exprs with
+      | .done vs ms => fin (vals vs ++ sPrint ms ++ sPrint [g]) ("END " ++ sFinal g)
+      | .failed vs => fin (vals vs ++ sPrint [g]) ("END " ++ sFinal g)
+      | .silent => "-"
+    | .fnsub =>
+      match sBody [l, g] sc.exprs with
+      | .done vs ms => fin (vals vs ++ sPrint ms ++ sPrint [l, g] ++ sPrint [g]) ("END " ++ sFinal g)
+      | .failed vs => fin (vals vs ++ sPrint [l, g] ++ sPrint [g]) ("END " ++ sFinal g)
+      | .silent => "-"
+  | _, _, _ => "-"
+
+def runS (opts globals kind locals exprs : String) : String :=
+  match decCtx globals, decKind kind, decCtx locals, (exprs.splitOn ",").mapM decChars with
+  | some g, some k, some l, some es =>
+    if opts ≠ "-" ∧ opts ≠ "u" then "bad-case\t-" else
+    let sc : Scenario := { nounset := opts = "u", globals := g, kind := k, locals := l, exprs := es }
+    showOutcome2 (runScenario allNames sc) ++ "\t" ++ specScenario sc
+  | _, _, _, _ => "bad-case\t-"
+
 def runLine (line : String) : String :=
   match words line with
   | "E" :: envT :: textT :: tree => runE envT textT tree
   | ["U", _] => "total\t-"
+  | ["S", opts, globals, kind, locals, exprs] => runS opts globals kind locals exprs
   | _ => "bad-case\t-"
 
 def main : IO Unit := mainLoop runLine
